@@ -2,10 +2,11 @@
 # MANIFEST.setup_cmd: offline pre-build of every harness binary against /repo.
 set -u
 cd "$(dirname "${BASH_SOURCE[0]}")"
+export VERIF_ROOT="$(pwd)"
 export CARGO_NET_OFFLINE=true
 mkdir -p evidence replays target
 ( cd harness && cargo build --offline --profile verif -p vcheck --bins ) 2>&1 | tail -3
-for s in harness/pre/*.sh; do
-  [ -x "$s" ] && { "$s" setup 2>&1 | tail -2; }
-done
+( cd harness && cargo build --offline --profile verif -p vcheck --bin c29 --features vectors --target-dir "$VERIF_ROOT/target/vectors" ) 2>&1 | tail -1
+harness/pre/frontends.sh setup 2>&1 | tail -1
+harness/pre/c16.sh setup 2>&1 | tail -1
 exit 0
